@@ -466,6 +466,38 @@ def check_walker_paths(ctx, ws):
                 if lookup_ok and n_desc else
                 'the walker looks up a definition without testing that the '
                 'name is defined')
+            if not copy_ok:
+                # the other discipline: one shared set, and every path that
+                # marks a name and does not report a cycle unmarks it again
+                # before it returns (backtracking) - a node then sees the
+                # names on its own reference path only
+                n_marked = 0
+                balanced = True
+                for p in t.paths:
+                    adds = [(i, x) for i, x in enumerate(p.events)
+                            if x.kind == 'call' and method_call(x.node, 'add')
+                            and is_seen(method_call(x.node)[0])
+                            and x.node.args]
+                    if not adds:
+                        continue
+                    oe = t.expand(p.outcome.expr) if p.outcome.kind == \
+                        'return' and p.outcome.expr is not None else None
+                    if oe is not None and is_const(oe, True):
+                        continue        # a cycle was found: nothing to undo
+                    n_marked += 1
+                    for i, a in adds:
+                        undone = any(
+                            y.kind == 'call' and method_call(y.node) and
+                            method_call(y.node)[1] in ('discard', 'remove')
+                            and is_seen(method_call(y.node)[0])
+                            and y.node.args and U(t.expand(
+                                y.node.args[0])) == U(t.expand(
+                                    a.node.args[0]))
+                            for y in p.events[i + 1:])
+                        if not undone:
+                            balanced = False
+                if balanced and n_marked > 0:
+                    copy_ok = True
             ctx.ob('C13.CYCLE', copy_ok and n_branch > 0, ctx.where(
                 w.module, w.node), w.qual, 'visited set per branch',
                 'each branch of an and/or receives a copy of the visited '
@@ -720,6 +752,21 @@ def check(ctx):
                 'walk (fold polarity, undefined / revisit tests) do not read'
                 % w.qual)
         cp = w.params[1] if len(w.params) > 1 else None
+        for n in walk_no_nested(w.node):
+            # a walker that answers with an object (the offending check,
+            # its name) or None instead of a verdict: hits and misses are
+            # then told apart by its callers, in ways the fold rules do not
+            # read
+            if isinstance(n, ast.Return) and n.value is not None:
+                v = n.value
+                if isinstance(v, ast.Name) and v.id == cp or (
+                        isinstance(v, ast.Attribute) and isinstance(
+                            v.value, ast.Name) and v.value.id == cp):
+                    raise AnalysisError(
+                        'the validation walker %s answers with an object '
+                        '(`return %s`, line %d) or None instead of a '
+                        'verdict: the rules on the walk read boolean folds '
+                        'only' % (w.qual, U(v), n.lineno))
         for n in ast.walk(w.node):
             if isinstance(n, (ast.While, ast.For)) and any(
                     isinstance(x, ast.Name) and x.id == cp and isinstance(
